@@ -32,6 +32,7 @@ type replayTmpl struct {
 	Kinds  []string
 	Label  string
 	Inputs [][2]string // name, spec expression over the root's parameters (entry state)
+	Prefer []string    // spec expressions (entry state) that steer the solver towards small, replayable models
 	Body   string
 }
 
@@ -59,6 +60,8 @@ func loadReplayTemplates() []*replayTmpl {
 					t.Kinds = strings.Split(strings.ReplaceAll(rest, " ", ""), ",")
 				case "label":
 					t.Label = rest
+				case "prefer":
+					t.Prefer = append(t.Prefer, rest)
 				case "input":
 					parts := strings.SplitN(rest, "=", 2)
 					if len(parts) == 2 {
@@ -148,8 +151,29 @@ func tryReplay(w *World, f failure, prop string) (bool, string) {
 		}
 		evs = append(evs, r)
 	}
-	script := x.buildQueryWatch(f.res.Obl, watch)
-	sr := Solve(script, "replay_"+f.res.Obl.Name, 20*time.Second)
+	// preferences: extra constraints for a small model; dropped when they make the query unsatisfiable
+	var prefs []*Term
+	for _, pe := range tmpl.Prefer {
+		e, err := ParseSpecExpr(pe)
+		if err != nil {
+			return false, fmt.Sprintf("replay template %s: prefer %s: %v", tmpl.File, pe, err)
+		}
+		var t *Term
+		if err := safeEval(func() { t = env.Bool(e) }); err != nil {
+			return false, fmt.Sprintf("replay template %s: prefer %s: %v", tmpl.File, pe, err)
+		}
+		prefs = append(prefs, t)
+	}
+	var sr SolveResult
+	if len(prefs) > 0 {
+		o2 := *f.res.Obl
+		o2.Guard = x.B.And(append([]*Term{o2.Guard}, prefs...)...)
+		sr = Solve(x.buildQueryWatch(&o2, watch), "replayp_"+f.res.Obl.Name, 30*time.Second)
+	}
+	if sr.Status != "sat" {
+		script := x.buildQueryWatch(f.res.Obl, watch)
+		sr = Solve(script, "replay_"+f.res.Obl.Name, 20*time.Second)
+	}
 	if sr.Status != "sat" {
 		return false, "could not re-derive the model with watch terms (" + sr.Status + ")"
 	}
